@@ -131,7 +131,7 @@ impl Prop for C12 {
         "C12"
     }
     fn rule(&self) -> String {
-        "graphs of all 8 kinds, n in 1..=10; families built from a random true partition (1..n blocks, up to 2 empty blocks) followed by 0..3 mutations: duplicate a node into another block, drop a node, both at once (overlap and omission cancelling in a size count), add a foreign name, duplicate a block. Oracle: is_partition <=> pairwise disjoint, subset of N, union = N (set algebra); modularity of a true partition of a graph with >= 1 edge = formula of the statement evaluated on the edge list (parallel edges individually, self-loop once in L_c and twice in the degree, directed: out x in / m^2), weighted and unweighted, resolution in {None, k/4 for k = 1..12}, tolerance 1e-9; non-partitions => NotAPartition. Non-trivial = a true partition with >= 2 non-empty blocks and both intra- and inter-block edges, or an overlap+omission family, or a family with a foreign name; distinct = distinct serialised case.".into()
+        "graphs of all 8 kinds, n in 1..=10; families built from a random true partition (1..n blocks, up to 2 empty blocks) followed by 0..3 mutations: duplicate a node into another block, drop a node, both at once (overlap and omission cancelling in a size count), add a foreign name, duplicate a block. Oracle: is_partition <=> pairwise disjoint, subset of N, union = N (set algebra); modularity of a true partition of a graph with >= 1 edge = formula of the statement evaluated on the edge list (parallel edges individually, self-loop once in L_c and twice in the degree, directed: out x in / m^2), weighted and unweighted, resolution in {None, k/4 for k = 1..12}, tolerance 1e-9; non-partitions => NotAPartition. Non-trivial = a true partition with >= 2 non-empty blocks and both intra- and inter-block edges, or an overlap+omission family, or a family with a foreign name; distinct = distinct serialised case. Name-type independence: is_partition and modularity are repeated with a user-defined node-name type (lossy Display, colliding Hash) and must agree with the String-named run.".into()
     }
     fn assumptions(&self) -> Vec<String> {
         vec!["empty communities are allowed in a partition (the statement only requires disjointness, containment and cover)".into(), "weighted = true is only used when every edge is weighted".into()]
@@ -221,6 +221,14 @@ impl Prop for C12 {
                         out.fail(format!("modularity/eq_formula/{}", class), format!("modularity = {} but the formula gives {} (family {:?}, weighted {}, resolution {:?})", q, want, fam, weighted, resolution));
                     }
                 }
+            }
+        }
+        // the same family with a user-defined node-name type (values only where the formula is
+        // well-conditioned, as above)
+        if !truth || ng.edges.is_empty() || !weighted || ng.edges.iter().map(|e| e.2).sum::<f64>().abs() >= 0.25 {
+            let fam_idx: Vec<Vec<Option<usize>>> = fam.iter().map(|b| b.iter().map(|x| ng.index_of(x)).collect()).collect();
+            if ng.n <= 12 || case.g.perm % 8 == 0 {
+                crate::altkey::check_partition_name_type(&ng, &fam_idx, weighted, resolution, &mut out);
             }
         }
         out.class(format!("kind_{}", ng.spec().label()));
